@@ -106,7 +106,7 @@ Proof. by vm_compute. Qed.
 
 (* the /repo functions this model was written from are still, statement by statement, the modelled ones *)
 Theorem C01_sources_are_the_modelled_ones :
-  all (all id) [:: gen_src_simple_dispatch; gen_src_multiply; gen_src_power] /\ [seq size f | f <- [:: gen_src_simple_dispatch; gen_src_multiply; gen_src_power]] = [:: 8; 10; 4]%N.
+  all (all id) [:: gen_src_simple_dispatch; gen_src_multiply; gen_src_power] /\ [seq size f | f <- [:: gen_src_simple_dispatch; gen_src_multiply; gen_src_power]] = [:: 8; 10; 6]%N.
 Proof. exact: bridge_src_C01. Qed.
 
 Print Assumptions C01_add_refines.
